@@ -52,6 +52,7 @@ var impTargets = []impTarget{
 	{"hermes/water.go", "Water", true},
 	{"hermes/nitro.go", "nmove", true},
 	{"hermes/nitro.go", "mineral", false},
+	{"hermes/crop.go", "vern", true},
 }
 
 // ---------------------------------------------------------------------------------------------- type-checked package
@@ -1174,13 +1175,15 @@ func translateImp(h *hermesPkg, tg impTarget) (res impResult) {
 	var body strings.Builder
 	var tops []string
 	if tg.split {
-		// one definition per top-level statement; a single-assignment local declared at the top level would have to be visible
-		// in the later definitions: such a function is not split
+		// one definition per top-level statement; a single-assignment local declared at the top level has to be visible
+		// in the later definitions
 		for _, st := range fd.Body.List {
 			if as, ok := st.(*ast.AssignStmt); ok && as.Tok == token.DEFINE {
 				if id, ok := as.Lhs[0].(*ast.Ident); ok {
 					if obj := h.info.Defs[id]; obj != nil && t.pure[obj] {
-						t.fail("%s: top-level single-assignment local %s in a function that is to be split", t.pos(st), id.Name)
+						// it has to be visible in the later definitions: it becomes a variable of the state like the locals that
+						// are assigned more than once
+						t.pure[obj] = false
 					}
 				}
 			}
